@@ -102,6 +102,11 @@ func (t *vpTransport) SendAccept(seed bool) { t.accepts++ }
 // (It returns an error so that callers may or may not look at it.)
 func (t *vpTransport) Drain() error {
 	t.drains++
+	if t.onDrain != nil {
+		f := t.onDrain
+		t.onDrain = nil
+		f() // the client has not sent anything yet: other requests are served meanwhile
+	}
 	if t.drainFails {
 		return errors.New("vp: connection closed before the first byte")
 	}
